@@ -17,6 +17,10 @@ MINT = chain("mint", 48, 480, ops=60, tops=120)
 MINT_ASSUME = "the size of the block provision (the SDK minter's inflation and annual provisions) is an input of the mint model; the monitor supply_grows_by_the_provision restates BlockProvision = annual provisions / blocks per year on the observation"
 
 VM_ENGINES = [vm("ops", 16000, 320000), vm("structured", 16000, 320000), vm("raw", 16000, 320000), vm("calls", 16000, 320000), vm("create", 1600, 16000)]
+# zero-length memory operands at large offsets, one instruction per program (C16 zero_length_grows_memory, C17 memory_is_paid_for)
+VM_ZEROLEN = vm("zerolen", 3200, 64000)
+# a counting loop delivered as eWASM constructor / eWASM contract call / EVM init code through DeliverTx (C17 wasm_work_is_metered)
+WASM = chain("wasm", 16, 160, ops=4)
 VM_ASSUME = ["outside the Lean interpreter model (cases reaching them are skipped by the comparison, monitors still run): CREATE/CREATE2, native/precompile addresses (<= 0xff), any use of an address destroyed earlier in the same transaction, call nesting deeper than 8",
              "DataStackMaxDepth = 0 and the 16 MiB memory provider, as x/cvm/keeper configures the VM"]
 VM_TRUST = ["modelled, not verified: Go runtime (big.Int, slices, allocation limits), Burrow acmstate cache/Sync, golang.org/x/crypto/sha3",
@@ -85,16 +89,17 @@ PROPS = {
     "C16": {
         "lean": ["Shentu.Props.C16"],
         "drivers": ["vmdriver"],
-        "engines": VM_ENGINES,
+        "engines": VM_ENGINES + [VM_ZEROLEN],
         "trusted": VM_TRUST + ["Shentu.Gen.EVM is regenerated from vm/contract.go by the translator; the refinement theorems are stated about the regenerated definitions"],
         "assumptions": VM_ASSUME + ["the specification side of the comparison is the interpreter model with every recorded deviation switched off (Quirks.spec); gas, GAS/GASLIMIT-dependent programs and out-of-gas runs are not compared (gas accounting may differ)"],
     },
     "C17": {
         "lean": ["Shentu.Props.C17", "Shentu.Props.C18vm"],
         "drivers": ["vmdriver", "chaindriver"],
-        "engines": VM_ENGINES + [chain("bankvm", 64, 640, ops=100)],
-        "trusted": VM_TRUST,
-        "assumptions": VM_ASSUME,
+        "engines": VM_ENGINES + [VM_ZEROLEN, chain("bankvm", 64, 640, ops=100), WASM],
+        "trusted": VM_TRUST + ["the final size of every frame's memory is read by the harness from the interpreter's own memory objects (the provider vm.NewCVM installs by default, obtained by reflection and handed on unchanged); programs of the profile 'zerolen' also return their own MSIZE and the two readings are compared",
+                               "eWASM execution (Burrow's execution/wasm on perlin-network/life) is not modelled: it is exercised through DeliverTx by the profile 'wasm' and judged on gas used against a lower bound of the instructions executed"],
+        "assumptions": VM_ASSUME + ["the theorems of Props/C17 are about the EVM interpreter (vm/); contracts deployed with IsEWASM run on an engine that has no gas accounting at all (recorded: C17-ewasm_unmetered)"],
     },
     "C01": dict(BANKVM, lean=["Shentu.Props.C01", "Shentu.Props.C01s", "Shentu.Props.C01vm", "Shentu.Props.C01run", "Shentu.Props.C01m"], drivers=["chaindriver", "vmdriver"],
                 engines=[chain("bankvm", 96, 960, ops=100), chain("gov", 48, 480, ops=100), chain("oracle", 48, 480), chain("shield", 32, 320, ops=120), chain("staking", 32, 320, ops=100),
